@@ -519,6 +519,7 @@ func (ex *Executor) freshOfType(st *State, label string, ty types.Type) Val {
 	}
 	if _, ok := ty.Underlying().(*types.Slice); ok {
 		ex.sliceFacts(st, t)
+		st.assume(And(Ge(ex.sarr(t), Num(0)), Le(ex.sarr(t), st.alloc)))
 	}
 	if isString(ty) {
 		st.assume(Ge(strLen(t), Num(0)))
@@ -670,13 +671,25 @@ func elemName(s Sort) string { return "E." + string(s) }
 // different maps: without unsafe, two slices can share memory only if their element types have identical
 // underlying types.
 func elemNameT(elem types.Type) string {
+	if it, ok := elem.Underlying().(*types.Interface); ok && it.NumMethods() == 0 {
+		return "E.Int.any" // interface{} and any print differently
+	}
 	return "E." + string(sortOf(elem)) + "." + sanitize(types.TypeString(elem.Underlying(), nil))
 }
 
 var byteElems = elemNameT(types.Typ[types.Uint8])
 
 func (ex *Executor) subRef(st *State, owner types.Type, fname string, base *Term) *Term {
-	return App(subFnName(owner, fname), SInt, base)
+	t := App(subFnName(owner, fname), SInt, base)
+	// embedded struct fields of different objects are different objects: the sub-object function has a left inverse
+	// (ground instance per use; gives injectivity without a quantifier)
+	if st != nil {
+		k := "subinv:" + t.Key()
+		if !st.seenFact(k) {
+			st.assume(Eq(App("un"+subFnName(owner, fname), SInt, t), base))
+		}
+	}
+	return t
 }
 
 func (ex *Executor) loadStructFrom(st *State, heap map[string]*Term, useState bool, ref *Term, ty types.Type) Val {
